@@ -11,7 +11,7 @@ git -C /repo worktree remove --force $WT 2>/dev/null; rm -rf $WT
 git -C /repo worktree add --detach $WT HEAD >/dev/null 2>&1 || exit 3
 git -C $WT apply "$PATCH" || { echo "patch does not apply"; git -C /repo worktree remove --force $WT; exit 3; }
 OUT=.build/seeded_${P}_$TAG.txt
-PV_REPO=$WT PV_MAX_REPLAYS=2 timeout 3000 ./check "$P" --tier "$TIER" --no-evidence "$@" > "$OUT" 2>&1
+PV_REPO=$WT PV_MAX_REPLAYS=${PV_MAX_REPLAYS:-3} timeout 3000 ./check "$P" --tier "$TIER" --no-evidence "$@" > "$OUT" 2>&1
 RC=$?
 git -C /repo worktree remove --force $WT
 
